@@ -2,7 +2,7 @@
 import copy
 
 ID = "C06"
-TITLE = "equivalence database: classes = strongly connected components, verified flags, explanation paths"
+TITLE = "equivalence database: classes = strongly connected components after cycle detection (kept by set_verified / queries / repeated detection), verified flags, explanation paths"
 COQ_PROPS = "Props/C06.v"
 COQ_RUN = ("Equiv.Run", "run_c06")
 GEN_TARGETS = ["equiv_heaviest"]   # Equiv/GenBridge.v
@@ -24,7 +24,9 @@ TRUSTED = [
     "modelled, not verified: comb_spec_searcher/equiv_db.py (EquivalenceDB) — hand-written Gallina model "
     "Equiv/Model.v tied by this correspondence",
     "CPython iterates a set of ints in 0..7 in ascending order (probed on every run by extra_checks); the model's "
-    "runnable instance iterates sets in ascending order; the theorems hold for every iteration order",
+    "runnable instance iterates sets in ascending order ONLY (isort); the theorems hold for every iteration order, but "
+    "for labels outside 0..7 the path / representative CPython actually returns is never compared with a model path "
+    "(db[x] is blanked, paths are compared by length; their validity is judged by the oracle)",
 ]
 ASSUMPTIONS = [
     "the conditional theorems are stated for runs of the model that do not exhaust the explicit loop fuel "
@@ -38,7 +40,9 @@ TECHNIQUE = ("Coq proof (invariants by induction over operation histories; depth
              "proved reference SCC")
 LEVEL_TEXT = (
     "Theorems C06_* (coq/theories/Props/C06.v) prove, for every history of add_two_way_edge / add_one_way_edge / "
-    "set_verified / connect_cycles / queries on a fresh database, every label set and every set-iteration order: "
+    "set_verified / connect_cycles / queries on a fresh database, every label set and every set-iteration order "
+    "(each conditional on `exec ... = Some`, i.e. the model's loop fuel not exhausted; the *_total theorems below "
+    "discharge that hypothesis for every order that yields each element once): "
     "soundness (labels reported equivalent are mutually reachable along recorded edges, at any time), the edge "
     "table is exactly the recorded graph, union-find canonicity (db[x] is a fixed representative, equivalent "
     "compares representatives, the classes form a partition, queries change nothing, a two-way edge changes the "
@@ -50,7 +54,16 @@ LEVEL_TEXT = (
     "class and `equivalent` answers True; together with soundness, C06_classes_are_sccs: right after "
     "connect_cycles `equivalent(a,b)` <=> a and b are mutually reachable, i.e. the classes are exactly the "
     "strongly connected components of the recorded graph, and C06_classes_are_sccs_after_queries: the same after "
-    "any number of queries (equivalent / is_verified / db[x] / find_path) following connect_cycles. The proof "
+    "any number of queries (equivalent / is_verified / db[x] / find_path) following connect_cycles; "
+    "C06_classes_are_sccs_after_neutral (+ _total): the same after any number of set_verified calls, queries AND further "
+    "connect_cycles calls following connect_cycles - the state in which RuleDBBase reads representatives (pruned_dict "
+    "calls set_verified for every surviving label right after connect_cycles; a cached pruned dictionary is read after "
+    "arbitrarily many such operations); C06_set_verified_keeps_partition (set_verified moves no root and no edge), "
+    "C06_neutral_records_nothing; C06_connect_cycles_idempotent: a connect_cycles on such a state changes no root, no "
+    "verified root, no edge (every merge it issues is inside a class); C06_representative_function: on every reachable "
+    "state the pure function repf s (the label db[x] returns) is total, is what every later lookup returns, is "
+    "idempotent and repf a = repf b <=> same class - the function the consumers C05/C14/C02/C13 take as `rep` "
+    "(C05 now instantiates it: Props/C05.v section 8). The proof "
     "(Equiv/CompleteUF.v, CompleteDFS.v, Complete.v) is a depth-first-search invariant of the explicit stack of "
     "paths over the union-find that is merged during the traversal, for every set-iteration order (even one that "
     "repeats elements). The earlier partial statements C06_complete_partial (labels joined by two-way edges are "
@@ -70,8 +83,9 @@ LEVEL_TEXT = (
     "`= Some` hypotheses: C06_sound_total, C06_classes_are_sccs_total, C06_classes_are_sccs_after_queries_total, "
     "C06_verified_total, C06_path_total (the old conditional statements are kept). "
     "The hand-written model is tied to equiv_db.py by running both on generated histories and comparing every "
-    "answer (and, for labels 0..7, roots, weights, parent pointers, verified roots, both edge tables and the "
-    "returned paths literally)."
+    "Boolean answer; for the half of the cases with labels 0..7 also roots, weights, parent pointers, verified roots, "
+    "both edge tables and the returned paths literally; for the other half db[x] answers are blanked and paths are "
+    "compared by their length only (they depend on CPython's set order)."
 )
 LEVEL_NOTE = (
     "Trusted: Coq kernel, ExtrOcamlBasic extraction + OCaml driver, the correspondence harness. Modelled not "
@@ -80,8 +94,10 @@ LEVEL_NOTE = (
     "not mention totality still hold for orders that repeat elements; totality does not: with every element yielded "
     "three times the BFS of find_path runs out of the model's fuel, C06_total_needs_order_len). Termination is a "
     "theorem about the model; the real code's termination follows through the correspondence only. "
-    "Completeness of connect_cycles is a theorem about the state right after connect_cycles (and after queries "
-    "that follow it); after further add_one_way_edge / add_two_way_edge calls and before the next connect_cycles "
+    "Completeness of connect_cycles is a theorem about the state right after connect_cycles and after any number of "
+    "queries, set_verified calls and further connect_cycles calls that follow it (so the property statement's 'after any "
+    "sequence ... exactly when' is proved in the <= direction only for such states); after further add_one_way_edge / "
+    "add_two_way_edge calls and before the next connect_cycles "
     "the classes may be finer than the SCCs (that is the documented behaviour of equiv_db.py: `you should use the connect_cycle method first`)."
 )
 
